@@ -14,6 +14,7 @@
    a program of class W):
      e1 (window: unchanged tyme, every event at that tyme, no Recur before ExtRet,
          exact new doers/deeds)                        [C06_extend_window]
+        (every added startable doer has its Enter in the window) [C06_extend_enters]
      e3                                                [C06_extend_present_identity]
      "the new deeds are behind the marker of a pass under way, so the scheduler
       whose pass is running does not send them in this pass" — the structural
@@ -23,8 +24,7 @@
    e2 in full is FALSE of the code (open finding D42: extending a DoDoer that has
    not yet had its pass in the current root cycle) — [C06_next_cycle_refuted].
    NOT PROVED (checked by the correspondence and the call-log oracle of
-   harness/drivers/c06.py on every run): that each new doer's Enter event occurs
-   in the window (e1, first half), e2 for the scheduler whose pass is running,
+   harness/drivers/c06.py on every run): e2 for the scheduler whose pass is running,
    and (m) over arbitrary interleavings with nested effects. *)
 From Hio Require Import Base.Prelude Base.AMap Base.Time Model.Sched Proofs.SchedLife Proofs.SchedTop
   Proofs.SchedDeque Proofs.SchedDequeHold Proofs.SchedDequeAll Proofs.SchedDequeUniq Proofs.SchedDequeOrder
@@ -63,6 +63,22 @@ Example C06_extend_example :
   oof (fst (run_effects 1%Z 50 w_state 1%N [EExtend 2%N [3; 6; 6]%N])) = false /\
   doers (get_sched (fst (run_effects 1%Z 50 w_state 1%N [EExtend 2%N [3; 6; 6]%N])) 2%N) = [3; 4; 6]%N.
 Proof. vm_compute. repeat split. Qed.
+
+(* every doer that was startable (new or finished) when extend() was called and is
+   among the added ones has an Enter event inside the window, when the window
+   completes (r1 = GReturn: no enter raised, budget not exhausted) *)
+Theorem C06_extend_enters :
+  forall (T : Type) (TT : Time T) (tk : T) (f : nat) (s : st T) (t : id) (news : list id) (s1 : st T) acc,
+    enter_local tk f s (new_of s t news) [] = (s1, GReturn, acc) ->
+    forall i, In i (new_of s t news) -> startable s i = true -> get (defs s) i <> None ->
+    exists seg e, trace s1 = seg ++ trace s /\ In e seg /\ e_kind e = Enter /\ e_id e = i.
+Proof. intros. eapply extend_enters; eassumption. Qed.
+Print Assumptions C06_extend_enters.
+
+Example C06_extend_enters_example :
+  snd (fst (enter_local 1%Z 49 w_state (new_of w_state 2%N [3; 6; 6]%N) [])) = GReturn /\
+  startable w_state 6%N = true /\ get (defs w_state) 6%N <> None.
+Proof. split; [vm_compute; reflexivity|]. split; [vm_compute; reflexivity|]. vm_compute. discriminate. Qed.
 
 Theorem C06_extend_present_identity :
   forall (T : Type) (TT : Time T) (tk : T) (f : nat) (s : st T) (c t : id) (news : list id)
